@@ -547,6 +547,7 @@ impl Property for C10 {
                 "input/output streams (simulated, benign schedules only)".into(),
             ],
             step_unit: "stream calls in-process + process spawns",
+            history_measure: "distinct (common observation, number of distinct dictionary-order probe logs seen across the configurations of the scenario)",
         }
     }
 
